@@ -71,6 +71,7 @@ def demo(wt, path):
 
 
 def cmd_import(prop, src, name=None):
+    """name: suffix of the seed id (default: basename of src; wave-2 seeds are imported as 4,5,6)"""
     name = name or os.path.basename(os.path.normpath(src))
     sid = f"{prop}-{name}"
     patch = os.path.join(src, "patch.diff")
